@@ -274,6 +274,13 @@ def explore_sticks(case):
     return res
 
 
+_H = 0.5
+# literal half-turn attitude errors: the scalar part of q^-1 * q_r is exactly 0.0
+HALF_TURN_PAIRS = [(np.array(a, dtype=float), np.array(b, dtype=float)) for a, b in (
+    ((1, 0, 0, 0), (0, 1, 0, 0)), ((1, 0, 0, 0), (0, 0, -1, 0)), ((1, 0, 0, 0), (0, 0, 0, 1)), ((-1, 0, 0, 0), (0, 0.6, 0, 0.8)),
+    ((_H, _H, _H, _H), (_H, -_H, -_H, _H)), ((0, 1, 0, 0), (1, 0, 0, 0)), ((0, 0, 1, 0), (0, 0, 0, -1)), ((_H, _H, _H, _H), (-_H, _H, -_H, _H)))]
+
+
 def attitude_set(seed, tier):
     """attitudes the way users get them: designed representatives (both signs) and products of two"""
     B = lib.built("SO3Quat")
@@ -298,12 +305,25 @@ def explore_attitude(case):
     qs = attitude_set(seed, tier)
     gains = [np.array([2.0, 2.0, 2.0]), np.array([2.0, 3.0, 0.5])]
     pairs = [(a, b) for a in qs for b in qs] + [(a, a) for a in qs] + [(a, -a) for a in qs]
-    for q, qr in pairs[part::nparts]:
+    pairs = pairs[part::nparts] + HALF_TURN_PAIRS
+    for q, qr in pairs:
         R, Rr = ref.R_from_quat(q), ref.R_from_quat(qr)
         Re = R.T @ Rr
         th = ref.rot_angle(Re)
         if th > math.pi - 0.01:
-            res.count("excluded_by_reference")
+            # at (and next to) a half-turn error the rotation vector is not unique (+-pi about the axis): only the clauses that
+            # do not depend on the choice are judged - finite, angle at most pi, and the commanded rotation reaches the reference
+            for kp in gains:
+                res.count("evaluations")
+                res.count("half_turn_errors")
+                res.nontrivial.add(hash((q.tobytes(), qr.tobytes(), kp.tobytes())))
+                w = arr(M["att"](kp, q, qr))
+                cls = "half_turn_error" + (";exact" if abs(float(np.dot(q, qr))) == 0.0 else "")
+                if not np.all(np.isfinite(w)) or np.linalg.norm(w / kp) > math.pi * (1 + 1e-9) or ref.rot_dist(R @ ref.rot(w / kp), Rr) > 1e-7:
+                    res.fail(site="attitude_control", clause="commanded_rotation_reaches_reference", cls=cls, detail=dict(q=q, q_r=qr, kp=kp, omega=w), sub="attitude", case=case)
+                zeta = arr(M["se23err"](np.zeros(3), np.zeros(3), q, np.zeros(3), np.zeros(3), qr))
+                if not np.all(np.isfinite(zeta)) or np.linalg.norm(zeta[6:]) > math.pi * (1 + 1e-9) or ref.rot_dist(R @ ref.rot(zeta[6:]), Rr) > 1e-7:
+                    res.fail(site="se23_error", clause="X_exp_zeta_reaches_reference", cls=cls, detail=dict(q=q, q_r=qr, zeta=zeta), sub="attitude", case=case)
             continue
         e_ref = ref.logm_rot(Re)
         same = th < 1e-12
@@ -407,3 +427,10 @@ class _A:
 SUBCHECKS = {"rate": _Rate(), "zint": _Z(), "velocity": _V(), "sticks": _St(), "attitude": _A()}
 REPLAY = {"rate": lambda c: explore_rate(c).fails, "zint": lambda c: explore_zint(c).fails, "velocity": lambda c: explore_velocity(c).fails,
           "sticks": lambda c: explore_sticks(c).fails, "attitude": lambda c: explore_attitude(c).fails}
+
+# results must not depend on which library calls were made earlier in the process (see mc/order.py)
+from .. import order as _order  # noqa: E402
+
+_ORDER = _order.OrderSub("C15", "control", None)
+SUBCHECKS["order"] = _ORDER
+REPLAY["order"] = _ORDER.replay
